@@ -70,7 +70,7 @@ class Ctx:
 
 
 class State:
-    __slots__ = ('guard', 'heap', 'model', 'aux', 'dom', 'mvars')
+    __slots__ = ('guard', 'heap', 'model', 'aux', 'dom', 'mvars', 'chk')
 
     def __init__(self, guard=(), heap=None, model=None, aux=None, dom=None, mvars=frozenset()):
         self.guard = guard
@@ -79,6 +79,7 @@ class State:
         self.aux = aux if aux is not None else {}
         self.dom = dom if dom is not None else {}
         self.mvars = mvars
+        self.chk = None     # the guard tuple last shown satisfiable (merged regime, back-edge checks)
 
     def fork(self, cond=None, model=None):
         g = self.guard if cond is None or cond is True else self.guard + (cond,)
@@ -1187,8 +1188,10 @@ class Interp:
                             c += 1
                             if not self.feas and self.backedge_check and c > 1:
                                 # merged regime: the solver decides whether another iteration exists
-                                if self.ctx.check(fr.st.guard) is None:
-                                    return
+                                if fr.st.chk is not fr.st.guard:
+                                    if self.ctx.check(fr.st.guard) is None:
+                                        return
+                                    fr.st.chk = fr.st.guard
                             if c > cap:
                                 outcomes.append(Outcome(fr.st, 'unwind', '%s: loop at block %d exceeds %d iterations' % (fid, h, cap)))
                                 return
